@@ -22,7 +22,9 @@ var res *report.Result
 
 var outcomes = []string{"ok", "refuse", "rst-before-headers", "circuit-open", "closed-without-answer", "garbage"}
 
-func asserted(o string) bool { return o == "ok" || o == "refuse" || o == "rst-before-headers" || o == "circuit-open" }
+func asserted(o string) bool {
+	return o == "ok" || o == "refuse" || o == "rst-before-headers" || o == "circuit-open"
+}
 
 func okBody(l byte) []byte {
 	return []byte(fmt.Sprintf(`{"backend":"%c","answer":"%s"}`, l, strings.Repeat(string(l), 24)))
@@ -50,7 +52,9 @@ type cfg struct {
 	k                int
 }
 
-func (c cfg) String() string { return fmt.Sprintf("engine=%s balancer=%s k=%d", c.engine, c.balancer, c.k) }
+func (c cfg) String() string {
+	return fmt.Sprintf("engine=%s balancer=%s k=%d", c.engine, c.balancer, c.k)
+}
 
 type env struct {
 	c       cfg
@@ -192,7 +196,7 @@ func main() {
 	}
 	res.Info["grid"] = map[string]any{"outcomes_asserted": outcomes[:4], "outcomes_explored": outcomes[4:], "engines": []string{"sherpa", "olla"},
 		"balancers": []string{"priority", "round-robin", "least-connections"}, "candidates": "1..3",
-		"prefixes": []string{"none", "4 failures on A then 1 success", "5 failures of kind K on X then readmission (circuit-open; olla engine)"},
+		"prefixes":      []string{"none", "4 failures on A then 1 success", "5 failures of kind K on X then readmission (circuit-open; olla engine)"},
 		"breaker_kinds": breakerKinds(th)}
 	res.Info["rule"] = "one evaluation = one (configuration, prefix, outcome assignment) cell: request, follow-up request, forced health round; non-trivial = the first selected candidate did not answer ok (a failover or skip decision was needed); distinct = distinct (engine, balancer, prefix, assignment, client status) fingerprints"
 	res.Assume("backends close after each exchange (Go's transparent replay on reused idle connections cannot masquerade as a second attempt)",
